@@ -334,7 +334,7 @@ Definition expel_candidate (local : Z) (s : suffrage) (th10 : Z) (r : rec) (n : 
                 if zlen wsfs <? thr 1000 q then None
                 else match tally q (thr 1000 q) (sf_ids wsfs) with
                      | RNotYet => None
-                     | RDraw => Some (wsfs, None, ex)
+                     | RDraw => None   (* countFromVoted: "case majority == nil: expelsnotyet = found" *)
                      | RMaj id =>
                          (* isExpelsOfBallotFact: the majority must have been voted with these expels *)
                          match find_fact id wsfs with
